@@ -126,6 +126,14 @@ def run(tier):
                  replay={"run": {"name": "replay", "inputs": (e["inputs"] if e["ev"] == "cli" else args),
                                  "form": e["cfg"]["form"], "batch_size": None if e["cfg"]["batch_size"] in (None, "NONE")
                                  else e["cfg"]["batch_size"], "n_jobs": 1, "threshold": 0, "kinds": kinds}})
+    if tier == "thorough":
+        def corrupt(e):
+            if e["ev"] == "run" and e["nrows"] >= 2:
+                e["rows"] = e["rows"][1:]
+                e["nrows"] -= 1
+                return e
+            return None
+        common.binding_selftest(rep, "Batching_Trace", log, corrupt)
     rep.extra.update({"layouts_replayed": len(layouts), "calls": len(events),
                       "cli_runs": sum(1 for e in events if e["ev"] == "cli"),
                       "forms": {f: sum(1 for e in events if e["cfg"]["form"] == f) for f in forms + ["cli"]},
